@@ -471,7 +471,9 @@ func (idx *KVIndex) fieldTermNumberRange(field string, min, max float64, minByte
 	if min < 0 {
 		minPrefix := EntryValuePrefix(field, TermNumber, minBytes)
 		maxPrefix := EntryValuePrefix(field, TermNumber, maxBytes)
-		if max > 0 {
+		if max >= 0 {
+			// the negative numbers end where the positive ones begin (+0 sorts
+			// below every positive number, the negative ones above +Inf)
 			maxPrefix = EntryValuePrefix(field, TermNumber, floatPosInfBytes)
 		}
 		idx.KV.View(func(it kvi.KVIterator) error {
